@@ -225,12 +225,41 @@ func (s *TieredCompactionStrategy) CompactRange(minKey, maxKey []byte) error {
 		}
 	}
 
-	// Find overlapping files in each level
+	// Find overlapping files in each level. The outputs go below every
+	// existing level, so a selected file must take along every other file that
+	// can hold one of its keys (any file whose key range overlaps its own):
+	// otherwise an older version left behind in a shallower level would shadow
+	// the newer one that moved down. The selection therefore grows until no
+	// unselected file overlaps the key range covered by the selected ones.
+	selected := make(map[*SSTableInfo]bool)
+	for grown := true; grown; {
+		grown = false
+		for level := 0; level <= maxLevel; level++ {
+			for _, file := range s.levels[level] {
+				if selected[file] || !file.Overlaps(rangeInfo) {
+					continue
+				}
+				selected[file] = true
+				grown = true
+
+				// Extend the covered range by this file's keys
+				covered := &SSTableInfo{FirstKey: rangeInfo.FirstKey, LastKey: rangeInfo.LastKey}
+				if bytes.Compare(file.FirstKey, covered.FirstKey) < 0 {
+					covered.FirstKey = file.FirstKey
+				}
+				if bytes.Compare(file.LastKey, covered.LastKey) > 0 {
+					covered.LastKey = file.LastKey
+				}
+				rangeInfo = covered
+			}
+		}
+	}
+
 	for level := 0; level <= maxLevel; level++ {
 		var overlappingFiles []*SSTableInfo
 
 		for _, file := range s.levels[level] {
-			if file.Overlaps(rangeInfo) {
+			if selected[file] {
 				overlappingFiles = append(overlappingFiles, file)
 			}
 		}
